@@ -78,6 +78,17 @@ def reachableHourM (a : Args) : Prop :=
     (a.byhour.getD []).contains ((a.dtstart.hh * 60 + a.dtstart.mm + (j : Int) * a.interval) / 60 % 24)) = true
 instance (a : Args) : Decidable (reachableHourM a) := by unfold reachableHourM; exact inferInstance
 
+/-- SECONDLY with BYHOUR and / or BYMINUTE (no BYSECOND): some second of the grid (orbit of the start under `+INTERVAL`,
+    which repeats after at most 86400 steps) falls in a listed hour (when BYHOUR is given) and a listed minute (when
+    BYMINUTE is given).  On the complement the recurrence set is empty and `_iter` raises ValueError at the first `next()`. -/
+def reachableS (a : Args) : Prop :=
+  (List.range 86400).any (fun j =>
+    (a.byhour.isNone || (a.byhour.getD []).contains
+      (((a.dtstart.hh * 60 + a.dtstart.mm) * 60 + a.dtstart.ss + (j : Int) * a.interval) / 3600 % 24)) &&
+    (a.byminute.isNone || (a.byminute.getD []).contains
+      (((a.dtstart.hh * 60 + a.dtstart.mm) * 60 + a.dtstart.ss + (j : Int) * a.interval) / 60 % 60))) = true
+instance (a : Args) : Decidable (reachableS a) := by unfold reachableS; exact inferInstance
+
 /-- **the families with an exactness theorem** -/
 def SupportedBy (a : Args) : Family → Prop
   | .daily => a.freq = 3 ∧ baseOk a ∧ wArgOk a ∧ a.byeaster = none
